@@ -15,6 +15,7 @@ import Driver.EraseDrv
 import Driver.MtxDrv
 import Driver.CfgDrv
 import Driver.MpiDrv
+import Driver.ElasticDrv
 /-! `driver <model>`: reads harness output (cases) on stdin, prints one verdict line per case. -/
 open Driver
 
@@ -37,6 +38,7 @@ def dispatch (model : String) (c : Case) : String :=
   | "mtx" => MtxDrv.runCase c
   | "cfg" => CfgDrv.runCase c
   | "mpi" => MpiDrv.runCase c
+  | "elastic" => ElasticDrv.runCase c
   | _ => s!"case {c.id} reject 0 unknown-model-{model}"
 
 def main (args : List String) : IO UInt32 := do
